@@ -312,4 +312,161 @@ Section OneMessage.
       destruct H1 as (Q1 & X1 & D1). destruct (IH _ _ _ Q1 E2) as (Q2 & X2 & D2).
       split; [exact Q2|]. split; [eapply xeff_trans; eassumption|auto].
   Qed.
+
+  (* ---------- packet assembly ---------- *)
+  Definition shaped (ms : list pmsg) : Prop := Forall (fun m => exists a, m = mk a) ms.
+
+  Lemma shaped_stamp now ms : shaped ms -> map (stamp now) ms = map (fun _ => mk now) ms.
+  Proof. induction 1 as [|m ms (a & ->) _ IH]; [reflexivity|]. cbn [map]. rewrite IH. reflexivity. Qed.
+
+  Lemma shaped_cbs ms : shaped ms -> opt_list (map m_cb ms) = map (fun _ => K) ms.
+  Proof. induction 1 as [|m ms (a & ->) _ IH]; [reflexivity|]. cbn [map opt_list m_cb mk]. rewrite IH. reflexivity. Qed.
+
+  Lemma retr_const now (ms : list pmsg) :
+    filter (fun m => negb (retry_is_none (m_retry m))) (map (fun _ => mk now) ms) = map (fun _ => mk now) ms.
+  Proof. induction ms as [|m ms IH]; [reflexivity|]. cbn. f_equal. exact IH. Qed.
+
+  Lemma fold_dset_mk now (ms : list pmsg) : forall d, (d = [] \/ exists v, d = [(mseq, v)]) ->
+    fold_left (fun d m => dset (m_seq m) m d) (map (fun _ => mk now) ms) d
+    = match ms with [] => d | _ => [(mseq, mk now)] end.
+  Proof.
+    induction ms as [|m ms IH]; intros d Hd; [reflexivity|]. cbn [map fold_left].
+    assert (Hs : dset (m_seq (mk now)) (mk now) d = [(mseq, mk now)]).
+    { destruct Hd as [->|(v & ->)]; cbn; [reflexivity|]. rewrite Z.eqb_refl. reflexivity. }
+    rewrite Hs, IH by (right; eexists; reflexivity). destruct ms; reflexivity.
+  Qed.
+
+  Lemma out_pass_head q m : forall rem msgs cu,
+    out_pass e (mk m :: q) [] 0 = (rem, msgs, cu) -> msgs <> [].
+  Proof.
+    intros rem msgs cu E. cbn [out_pass] in E.
+    assert (Hf : fits e (len (m_payload (mk m))) (len (@nil pmsg)) 0 = true) by exact fits_mk. rewrite Hf in E.
+    destruct (out_pass_prefix _ _ _ _ _ _ _ E) as (ch & ->). cbn. discriminate.
+  Qed.
+
+  (* fields that packet assembly leaves alone *)
+  Record bframe (c c' : conn) : Prop := {
+    bf_server : c_server c' = c_server c; bf_key : c_key c' = c_key c; bf_status : c_status c' = c_status c;
+    bf_incoming : c_incoming c' = c_incoming c; bf_bfp : c_bf_pkt c' = c_bf_pkt c; bf_bfm : c_bf_msg c' = c_bf_msg c;
+    bf_si : c_send_interval c' = c_send_interval c; bf_ka : c_ka_interval c' = c_ka_interval c;
+    bf_ot : c_out_timeout c' = c_out_timeout c; bf_lr : c_last_recv c' = c_last_recv c;
+    bf_hello : c_hello_sent c' = c_hello_sent c; bf_done : c_done c' = c_done c }.
+
+  Lemma build_packet_X c now c' r :
+    SQ c -> c_status c = CONNECTED -> c_last_send c = c_last_ka c ->
+    c_send_interval c < now - c_last_send c ->
+    build_packet e c now = (c', r) ->
+    SQ c' /\ bframe c c' /\ c_last_send c' = c_last_ka c' /\
+    match r with
+    | None => now - c_last_send c <= kmax c /\ c_seq_send c' = c_seq_send c /\ c_last_send c' = c_last_send c
+              /\ c_pcbs c' = c_pcbs c
+    | Some (h, ms) =>
+        c_seq_send c' = seq_succ (c_seq_send c) /\ c_last_send c' = now /\ h_seq h = seq_succ (c_seq_send c)
+        /\ h_count h = len ms /\ Forall (eq (mk now)) ms
+        /\ h_type h = (match ms with [] => KEEP_ALIVE | _ => APP end)
+        /\ (done c = false -> ms <> [])
+        /\ c_pcbs c' = (match ms with [] => c_pcbs c
+                        | _ => dset (seq_succ (c_seq_send c)) (map (fun _ => K) ms) (c_pcbs c) end)
+    end.
+  Proof.
+    intros [Q1 Q2 Q3 Q4 Q5] Hst Hls Hg E. unfold build_packet in E.
+    assert (now - c_last_send c <? c_send_interval c = false) as Hr by lia. rewrite Hr in E.
+    destruct (build_impl e c now (now - c_last_ka c >? c_ka_interval c) (c_ka_interval c)) as [c1 r1] eqn:E1.
+    unfold build_impl in E1.
+    (* the retry pass *)
+    destruct (match c_pretry_msg c with [] => _ | _ => _ end) as [[prm msgs0] cur0] eqn:E0.
+    assert (H0 : (prm = c_pretry_msg c /\ msgs0 = [] /\ cur0 = 0 /\
+                  (c_pretry_msg c <> [] -> now - c_last_send c < c_ka_interval c))
+                 \/ (prm = [] /\ msgs0 = [mk (c_last_send c)] /\ c_pretry_msg c <> [])).
+    { destruct Q2 as [Hp0|Hp0]; rewrite Hp0 in E0.
+      - injection E0 as <- <- <-. left. rewrite Hp0. repeat split; auto. intros H; contradiction.
+      - cbn [sort_items fold_right ins_item retry_pass m_atime mk] in E0.
+        destruct (now - c_last_send c <? c_ka_interval c) eqn:Hdue.
+        + injection E0 as <- <- <-. left. rewrite Hp0. repeat split; auto. intros _. lia.
+        + assert (Hf : fits e (len (m_payload (mk (c_last_send c)))) (len (@nil pmsg)) 0 = true) by exact fits_mk.
+          rewrite Hf in E0. injection E0 as <- <- <-.
+          right. rewrite Hp0. split; [|split; [reflexivity|discriminate]].
+          unfold ddel. cbn. rewrite Z.eqb_refl. reflexivity. }
+    clear E0.
+    assert (Hprm : prm = [] \/ exists v, prm = [(mseq, v)]).
+    { destruct H0 as [(-> & _)|(-> & _)]; [|left; reflexivity].
+      destruct Q2 as [->| ->]; [left; reflexivity|right; eexists; reflexivity]. }
+    assert (Hm0 : shaped msgs0).
+    { destruct H0 as [(_ & -> & _)|(_ & -> & _)]; [constructor|]. repeat constructor. eexists. reflexivity. }
+    (* the queue pass *)
+    destruct (out_pass e (c_outgoing c) msgs0 cur0) as [[rem msgs] cu] eqn:E2.
+    destruct (ClearP.out_pass_Forall _ _ _ _ _ _ _ _ Q1 Hm0 E2) as [Hrem Hmsgs].
+    destruct (out_pass_prefix _ _ _ _ _ _ _ E2) as (ch & Hch).
+    fold shaped in Hrem, Hmsgs.
+    set (s := seq_succ (c_seq_send c)) in *.
+    rewrite (shaped_stamp now msgs Hmsgs), (shaped_cbs msgs Hmsgs), retr_const in E1.
+    assert (Hall : Forall (eq (mk now)) (map (fun _ => mk now) msgs)).
+    { apply Forall_forall. intros x Hx. apply in_map_iff in Hx as (y & <- & _). reflexivity. }
+    destruct msgs as [|m0 msgs'] eqn:Emsgs.
+    - (* nothing selected: a keep-alive or nothing *)
+      assert (Hnil : msgs0 = [] /\ c_outgoing c = [] /\ rem = []).
+      { destruct msgs0; [|destruct ch; discriminate]. split; [reflexivity|].
+        destruct (c_outgoing c) as [|m q] eqn:Eo; [cbn in E2; injection E2 as <- _; auto|].
+        exfalso. destruct H0 as [(_ & _ & -> & _)|(_ & H & _)]; [|discriminate].
+        inversion Q1 as [|? ? Hm _]. destruct Hm as (a & Hm). rewrite Hm in E2. eapply out_pass_head; [exact E2|reflexivity]. }
+      destruct Hnil as (-> & Ho & ->). destruct H0 as [(-> & _ & _ & Hdue)|(_ & H & _)]; [|discriminate].
+      cbn [map opt_list filter fold_left] in E1.
+      assert (Hst' : c_status (c <| c_pretry_msg := c_pretry_msg c |> <| c_outgoing := [] |>) = CONNECTED) by exact Hst.
+      rewrite Hst' in E1. cbn [status_eqb status_code Z.eqb Pos.eqb andb] in E1. rewrite andb_true_r in E1.
+      destruct (now - c_last_ka c >? c_ka_interval c) eqn:Hka; cbn [ptype_eqb ptype_code Z.eqb] in E1.
+      + (* keep-alive: only when the message is done *)
+        injection E1 as <- <-. injection E as <- <-.
+        assert (Hp0 : c_pretry_msg c = []).
+        { destruct (c_pretry_msg c) eqn:Ep; [reflexivity|]. exfalso. specialize (Hdue ltac:(discriminate)). lia. }
+        split; [|split; [constructor; reflexivity|split; [reflexivity|]]].
+        * constructor.
+          -- cbn. constructor.
+          -- left. exact Hp0.
+          -- exact Q3.
+          -- exact Q4.
+          -- destruct Q5 as [Q5|[Q5|Q5]]; [left; exact Q5|rewrite Ho in Q5; contradiction|rewrite Hp0 in Q5; contradiction].
+        * cbn. repeat split; auto. intros Hd. exfalso.
+          destruct Q5 as [Q5|[Q5|Q5]]; [congruence|rewrite Ho in Q5; contradiction|rewrite Hp0 in Q5; contradiction].
+      + injection E1 as <- <-. injection E as <- <-.
+        split; [|split; [constructor; reflexivity|split; [exact Hls|]]].
+        * constructor.
+          -- cbn. constructor.
+          -- exact Q2.
+          -- exact Q3.
+          -- exact Q4.
+          -- destruct Q5 as [Q5|[Q5|Q5]]; [left; exact Q5|rewrite Ho in Q5; contradiction|right; right; exact Q5].
+        * cbn. repeat split; auto. unfold kmax.
+          destruct (c_pretry_msg c) eqn:Ep; [lia|]. specialize (Hdue ltac:(discriminate)). lia.
+    - (* the message goes out *)
+      cbn [map opt_list] in E1. cbn [ptype_eqb ptype_code m_type Z.eqb] in E1.
+      assert (Hty : m_type m0 = APP) by (inversion Hmsgs as [|? ? (a & ->) _]; reflexivity).
+      rewrite Hty in E1. cbn [ptype_eqb ptype_code Z.eqb] in E1.
+      cbn [fold_left] in E1.
+      injection E1 as <- <-. injection E as <- <-.
+      assert (Hfold : fold_left (fun d m => dset (m_seq m) m d) (map (fun _ => mk now) msgs')
+                        (dset (m_seq (mk now)) (mk now) prm) = [(mseq, mk now)]).
+      { assert (Hs : dset (m_seq (mk now)) (mk now) prm = [(mseq, mk now)]).
+        { destruct Hprm as [->|(v & ->)]; cbn; [reflexivity|]. rewrite Z.eqb_refl. reflexivity. }
+        rewrite Hs, fold_dset_mk by (right; eexists; reflexivity). destruct msgs'; reflexivity. }
+      split; [|split; [constructor; reflexivity|split; [reflexivity|]]].
+      + constructor.
+        * exact Hrem.
+        * right. exact Hfold.
+        * change (Forall (fun x => Forall mine (snd x)) (dset s (K :: map (fun _ => K) msgs') (c_pcbs c))).
+          apply ClearP.Forall_dset; [exact Q3|]. cbn [snd]. constructor; [right; reflexivity|].
+          apply Forall_forall. intros x Hx. apply in_map_iff in Hx as (y & <- & _). right. reflexivity.
+        * change (forall s0 l, dget s0 (dset s (map m_seq (mk now :: map (fun _ => mk now) msgs')) (c_pretry c)) = Some l ->
+                    Forall (eq mseq) l /\ (l <> [] -> exists ks, dget s0 (dset s (K :: map (fun _ => K) msgs') (c_pcbs c)) = Some ks /\ In K ks)).
+          intros s' l. rewrite !CallbackP.dget_dset. destruct (s' =? s) eqn:Es.
+          -- intros H. injection H as <-. split.
+             ++ apply Forall_forall. intros x Hx. destruct Hx as [<-|Hx]; [reflexivity|].
+                apply in_map_iff in Hx as (y & <- & Hy). apply in_map_iff in Hy as (z & <- & _). reflexivity.
+             ++ intros _. eexists. split; [reflexivity|left; reflexivity].
+          -- intros H. destruct (Q4 _ _ H) as [A B]. split; [exact A|exact B].
+        * right. right. change (fold_left (fun d m => dset (m_seq m) m d) (map (fun _ => mk now) msgs')
+                        (dset (m_seq (mk now)) (mk now) prm) <> []). rewrite Hfold. discriminate.
+      + cbn. rewrite !map_length, map_map.
+        split; [reflexivity|]. split; [reflexivity|]. split; [reflexivity|]. split; [reflexivity|].
+        split; [exact Hall|]. split; [reflexivity|]. split; [intros _; discriminate|reflexivity].
+  Qed.
 End OneMessage.
